@@ -103,6 +103,10 @@ reg = {
         # ReadOnlyDatabase::new over models of its callees
         "roopen": {"overlay": "units/roopen.ovl", "canaries": ["canary_roopen"],
                    "helpers": ["from", "new", "next", "load_allocator_state", "get_last_committed_transaction_id", "get_allocator_state_table"]},
+        # the decision procedure of crash recovery over a ghost model of the two commit slots
+        "repair": {"overlay": "units/repair.ovl", "canaries": ["canary_repair"],
+                   "helpers": ["from", "new", "aborted", "clone", "used_two_phase_commit", "repair_primary_corrupted", "clear_read_cache",
+                               "clear_recovery_required", "verify_primary_checksums", "rebuild_allocator_state"]},
         "types_sep": {"overlay": "units/types_sep.ovl", "canaries": ["canary_types_sep"], "helpers": ["common_prefix_len"]},
         # the page-level checksum walk over an abstract page store
         "merkle": {"overlay": "units/merkle.ovl", "canaries": ["canary_merkle"],
@@ -203,16 +207,19 @@ P["C01"] = {
     "verus": [{"unit": "alloc", "functions": ["DatabaseLayout::recalculate", "DatabaseLayout::len", "RegionLayout::len", "lemma_round_up", "lemma_div_exact", "lemma_mul_le"]},
               {"unit": "alloc", "functions": ["TransactionalMemory::commit", "TransactionalMemory::non_durable_commit", "TransactionalMemory::try_shrink", "DatabaseHeader::*", "lemma_xor1",
                                               "Mutex::lock", "drop", "TransactionId::gt_id"]},
-              {"unit": "dbverify", "functions": ["Database::verify_checksums"]}],
-    "assumptions": ["T9: TransactionalMemory::write_header hands the 320-byte image of exactly the header it is given to the storage layer, and PagedCachedFile::flush makes everything handed over before it durable; each appends its event to the ghost trace on success and its event or nothing on failure (assumed contracts of the storage model in the alloc unit; the page cache itself is not verified)",
+              {"unit": "dbverify", "functions": ["Database::verify_checksums"]},
+              {"unit": "repair", "functions": ["Database::do_repair", "Database::primary_verifies"]}],
+    "assumptions": ["R1 (repair unit): whether the trees of the current primary slot verify is a ghost flag of the page-store model (verify_primary_checksums returns it, and reports a Corrupted error only for trees that do not verify - the real walk is verified in dbverify / tableverify / merkle); repair_primary_corrupted swaps the two slots; rebuild_allocator_state and clear_recovery_required change only their own flag; the repair callback may do anything to the session it is handed (rule RX turns `&(dyn Fn(&mut RepairSession) + 'static)` into `&impl Fn(&mut RepairSession)`, `&mut Arc<TransactionalMemory>` into `&mut TransactionalMemory`, and the array pattern `let [a, b] = e?` into two index reads)",
+                    "T9: TransactionalMemory::write_header hands the 320-byte image of exactly the header it is given to the storage layer, and PagedCachedFile::flush makes everything handed over before it durable; each appends its event to the ghost trace on success and its event or nothing on failure (assumed contracts of the storage model in the alloc unit; the page cache itself is not verified)",
                     "M1: std::sync::Mutex is modelled for ONE thread: lock() never fails and lends the protected value, drop(guard) returns it unchanged; the functions that reach state through &self take &mut self in the unit (rule RX on the signature); DatabaseHeader::clone copies every field; a 64-bit target (global size_of usize == 8)"],
-    "explanation": "Kernel of the crash argument of docs/design.md: (K5) the REAL body of TransactionalMemory::commit (whole function, over a one-thread model of the state mutex and a ghost trace of the storage events) produces exactly W(h1) [F if two_phase] W(h2) F [Resize(len) if the commit trimmed the file], where h1 is the header (after the optional trim: same slots and flags, never a longer layout) with the new commit staged in the secondary slot and the OLD god byte, and h2 differs from h1 only in the primary bit and the 2PC bit; on a failing write or sync only a prefix of that sequence reaches the storage (the flip never precedes the sync it depends on, the file is cut only after the header with the shorter layout is durable); on success h2 is published, reads return to the primary and the unpersisted set is emptied; on failure the published header is NOT the new commit; with the I/O latch set nothing happens at all; non_durable_commit stages the commit in the in-memory secondary slot, sets read_from_secondary, adds the pages to the unpersisted set and reaches the storage with nothing; (K1) a written commit slot decodes to itself and verifies; (K2) the commit point is ONE byte: flipping primary / 2PC / recovery flags changes only byte 9; (K3) slot selection never returns a slot that failed verification, keeps the primary under 2PC, otherwise the newer valid slot wins; (K4) with recovery_required the layout is rebuilt from the file length whatever the stored counts were (page size 4096; the unbounded counterpart is Verus DatabaseLayout::recalculate: the rebuilt layout never extends past the file); (K6) transaction ids strictly increase and reserving a repair id never lowers the next id.",
+    "explanation": "Kernel of the crash argument of docs/design.md: (K5) the REAL body of TransactionalMemory::commit (whole function, over a one-thread model of the state mutex and a ghost trace of the storage events) produces exactly W(h1) [F if two_phase] W(h2) F [Resize(len) if the commit trimmed the file], where h1 is the header (after the optional trim: same slots and flags, never a longer layout) with the new commit staged in the secondary slot and the OLD god byte, and h2 differs from h1 only in the primary bit and the 2PC bit; on a failing write or sync only a prefix of that sequence reaches the storage (the flip never precedes the sync it depends on, the file is cut only after the header with the shorter layout is durable); on success h2 is published, reads return to the primary and the unpersisted set is emptied; on failure the published header is NOT the new commit; with the I/O latch set nothing happens at all; non_durable_commit stages the commit in the in-memory secondary slot, sets read_from_secondary, adds the pages to the unpersisted set and reaches the storage with nothing; (R) the REAL decision procedure of crash recovery (Database::do_repair, primary_verifies): a repaired database runs on a primary slot whose trees verify; the other slot is used only when the primary did not verify, at most once, and never after a two-phase commit (whose primary must be intact: Corrupted is reported instead); the recovery flag is cleared only after the allocator state was rebuilt, and every failure - corruption of both slots, I/O error, abort by the callback - leaves it set so that the next open repairs again; a Corrupted error from the walk counts as 'does not verify', any other error propagates; (K1) a written commit slot decodes to itself and verifies; (K2) the commit point is ONE byte: flipping primary / 2PC / recovery flags changes only byte 9; (K3) slot selection never returns a slot that failed verification, keeps the primary under 2PC, otherwise the newer valid slot wins; (K4) with recovery_required the layout is rebuilt from the file length whatever the stored counts were (page size 4096; the unbounded counterpart is Verus DatabaseLayout::recalculate: the rebuilt layout never extends past the file); (K6) transaction ids strictly increase and reserving a repair id never lowers the next id.",
     "not_decided": "2^W write subsets, page data and checksums reaching the cache before the first header write (finalize_dirty_checksums, whole-program), what the page cache does with writes and flushes (assumed, T9), begin_writable / clear_recovery_required / flush_shutdown_header (they hold the state lock across calls on self, which the one-thread Mutex model cannot express), WriteTransaction::durable_commit above TransactionalMemory::commit, concurrency, histories, recovery re-crash",
 }
 P["C12"] = {
     "level": "proof",
     "verus": [{"unit": "dbverify", "functions": ["Database::verify_primary_checksums", "Database::verify_checksums"]},
               {"unit": "tableverify", "functions": ["TableTree::verify_checksums", "verify_tree_and_subtree_checksums"]},
+              {"unit": "repair", "functions": ["Database::do_repair", "Database::primary_verifies"]},
               {"unit": "merkle", "functions": ["RawBtree::verify_checksum", "RawBtree::verify_checksum_helper"]}],
     "assumptions": ["tableverify unit: raw_ok(root, key width, value width) stands for RawBtree::new(root, ..).verify_checksum() == Ok(true) (what the merkle unit proves about the real walk); the catalog's entries, the pages of a tree (AllPageNumbersBtreeIter) and the subtree roots stored in a page (parse_subtree_roots) are uninterpreted; the two iterators are models with an inherent next() yielding their sequence in order (rule R18 desugars the for loops over them, rule R17 the let-chain)",
                     "merkle unit: pages, BranchAccessor::{new, count_children, child_page, child_checksum}, PageResolver::get_page, PageImpl::memory and leaf_checksum / branch_checksum are abstract: assumed contracts over uninterpreted functions of the page number (kind, recomputed checksum, child table); <[T]>::contains is given no specification",
